@@ -3000,3 +3000,258 @@ def c05_linalg(ns, G):
             out.append(prove_eq('%s.entry%s' % (oid, '_'.join(map(str, idx))), hy + list(paths[0].pc), _nd_get(res, idx), cur[idx], fn, z3_first_ms=300))
         return out
     return go()
+
+
+# ---------------------------------------------------------------- C06: the in-place pulse functions, executed on a 2-point-per-axis grid
+def c06_pulse_exec(q):
+    """PhiManip.<q> (phi_KD_admix_..._into_d), helper _K_pop_admixture_intermediates answered by an abstract result (bracket indices concrete and
+    different for every grid point, fractions and normalisation symbolic per grid point):
+      * the helper receives phi, the per-population mixing fractions in population order (source k: its f_k; destination: 1 - sum of the f's; the
+        last population's fraction implied), the K grids in population order and the destination grid;
+      * for every position of the other populations, new phi[.., j', ..] = sum_j w_j(dest grid) * P[j][j'] where row j of P holds
+        frac_lower*norm at the lower bracket and frac_upper*norm at the upper bracket *of that same grid point* (trapezoid weights w);
+      * phi is updated in place and returned."""
+    oid = 'C06/PhiManip.py:%s/exec' % q
+    fn = 'dadi/PhiManip.py::' + q
+
+    @guarded(oid, fn)
+    def go():
+        m = re.match(r'phi_(\d)D_admix_.*into_(\d)$', q)
+        K, dest = int(m.group(1)), int(m.group(2)) - 1
+        G = 2
+        mod = ModInfo.load('dadi/PhiManip.py')
+        node = mod.funcs[q]
+        params = [a.arg for a in node.args.args]
+        fnames = [p for p in params[1:] if re.match(r'f\d*$', p)]
+        gnames = [p for p in params if p in GRIDS]
+        if len(gnames) != K or params[0] != 'phi':
+            return [struct(oid, False, 'unexpected signature %s' % params, fn, undecided=True)]
+        if fnames == ['f']:
+            src = [1 - dest]
+        else:
+            src = [int(p[1:]) - 1 for p in fnames]
+        fr = {k: z3.Real('f_pop%d' % (k + 1)) for k in src}
+        shape = (G,) * K
+        f0 = {idx: z3.Real('phi' + '_'.join(map(str, idx))) for idx in itertools.product(*[range(G)] * K)}
+        phi = _nd_build(shape, lambda idx: f0[idx])
+        grids = [VList(reals('%s_' % GRIDS[a], G), 'ndarray') for a in range(K)]
+        low = {idx: (idx[dest] + sum((a + 1) * idx[a] for a in range(K) if a != dest)) % G for idx in f0}
+        up = {idx: (low[idx] + 1) % G for idx in f0}
+        FL = {idx: z3.Real('fl' + '_'.join(map(str, idx))) for idx in f0}
+        FU = {idx: z3.Real('fu' + '_'.join(map(str, idx))) for idx in f0}
+        NM = {idx: z3.Real('nm' + '_'.join(map(str, idx))) for idx in f0}
+        helper = []
+
+        def pol(frf):
+            if frf.qualname.endswith('_admixture_intermediates'):
+                def h(ex_, f_, a, kw):
+                    helper.append((frf.qualname, list(a)))
+                    return (_nd_build(shape, lambda i: low[i]), _nd_build(shape, lambda i: up[i]), _nd_build(shape, lambda i: FL[i]),
+                            _nd_build(shape, lambda i: FU[i]), _nd_build(shape, lambda i: NM[i]))
+                return h
+            return 'inline' if frf.qualname in (q, 'trapz') else 'abstract'
+        ex = Executor(policy=pol)
+        f = ex.func('dadi/PhiManip.py', q)
+        args = [phi] + [fr[k] for k in src] + grids
+        paths = ex.run(f, args, {})
+        if len(paths) != 1 or paths[0].outcome != 'return' or len(helper) != 1:
+            return [struct(oid, False, 'expected one returning path with one helper call: %r helper=%s' % (paths[:2], [h[0] for h in helper]), fn, undecided=True)]
+        out = []
+        pc = list(paths[0].pc)
+        hn, ha = helper[0]
+        names = {2: '_two_pop', 3: '_three_pop', 4: '_four_pop', 5: '_five_pop'}
+        out.append(struct(oid + '.helper', hn == names[K] + '_admixture_intermediates' and ha[0] is phi, 'helper %s on phi' % hn, fn))
+        nfr = K - 1
+        fargs, gargs = ha[1:1 + nfr], ha[1 + nfr:]
+        ok_g = len(gargs) == K + 1 and all(gargs[a] is grids[a] for a in range(K)) and gargs[K] is grids[dest]
+        out.append(struct(oid + '.helper-grids', bool(ok_g), 'grids in population order, then the destination grid', fn))
+        if len(fargs) == nfr:
+            want_fr = lambda k: fr[k] if k in src else 1 - sum(fr.values(), z3.RealVal(0))
+            for k in range(nfr):
+                out.append(prove_eq('%s.helper-fraction%d' % (oid, k + 1), pc, fargs[k], want_fr(k), fn))
+            out.append(prove_eq('%s.helper-fraction%d' % (oid, K), pc, 1 - sum((to_real(exact(x)) for x in fargs), z3.RealVal(0)), want_fr(K - 1), fn))
+        else:
+            out.append(struct(oid + '.helper-fractions', False, 'expected %d fractions, got %d' % (nfr, len(fargs)), fn))
+        res = paths[0].value
+        out.append(struct(oid + '.in-place', res is phi, 'returns the array it was given (updated in place)', fn))
+        gd = grids[dest].items
+        w = _trapz_weights(gd)
+        for idx in f0:
+            want = z3.RealVal(0)
+            for j in range(G):
+                sidx = idx[:dest] + (j,) + idx[dest + 1:]
+                row = [z3.RealVal(0)] * G
+                row[low[sidx]] = FL[sidx] * NM[sidx]
+                row[up[sidx]] = FU[sidx] * NM[sidx]
+                want = want + w[j] * row[idx[dest]]
+            out.append(prove_eq('%s.entry%s' % (oid, '_'.join(map(str, idx))), pc, _nd_get(res, idx), want, fn, finding_key='C06/pulse-exec/%s' % q))
+        return out
+    return go()
+
+
+def c06_pulse_functions():
+    mod = ModInfo.load('dadi/PhiManip.py')
+    return sorted(q for q in mod.funcs if re.match(r'phi_(\d)D_admix_.*into_(\d)$', q))
+
+
+# ---------------------------------------------------------------- C08: one-axis projection on small shapes, every entry and mask bit symbolic
+def c08_project_one_axis(ns, axis, n):
+    """Spectrum._project_one_axis(n, axis) on a spectrum with sample sizes ns (every entry and mask bit symbolic), weights by the contract of
+    _cached_projection (C08 weight obligations):  out[.., j, ..] = sum_hits P(n, N, hits)[j] * f[.., hits, ..]  over the hits whose window
+    [max(n-(N-hits),0), min(hits,n)] contains j;  out is masked exactly where one of those source entries is masked (nothing else, in particular
+    not the corners);  projecting to more than N is refused."""
+    ns = tuple(ns)
+    oid = 'C08/Spectrum_mod.py:Spectrum._project_one_axis/ns%s.axis%d.to%d' % ('_'.join(map(str, ns)), axis, n)
+    fn = 'dadi/Spectrum_mod.py::Spectrum._project_one_axis'
+
+    @guarded(oid, fn)
+    def go():
+        shape = tuple(k + 1 for k in ns)
+        N = ns[axis]
+        f0 = {i: z3.Real('f' + '_'.join(map(str, i))) for i in itertools.product(*[range(s) for s in shape])}
+        m0 = {i: z3.Bool('m' + '_'.join(map(str, i))) for i in f0}
+        data = _nd_build(shape, lambda i: f0[i])
+        mask = _nd_build(shape, lambda i: m0[i])
+        made = []
+
+        def gh(ex_, obj, name, ctx):
+            if obj is data:
+                if name == 'sample_sizes':
+                    return VList(list(ns), 'ndarray')
+                if name == 'Npop':
+                    return len(ns)
+                if name == 'mask':
+                    return mask
+            return NotImplemented
+
+        def ah(ex_, fref, a, kw, ctx):
+            if (isinstance(fref, ClassRef) and fref.node.name == 'Spectrum') or (isinstance(fref, Tm) and 'Spectrum' in fref.op):
+                arr = a[0]
+                shp = ex_.list_method(arr, 'shape')
+                mc = kw.get('mask_corners', True)      # constructor default: corners masked
+                corner = lambda idx: bool(mc) and (all(i == 0 for i in idx) or all(i == s - 1 for i, s in zip(idx, shp)))
+                ex_.setattr(arr, 'mask', _nd_build(shp, lambda idx: corner(idx)))
+                made.append(arr)
+                return arr
+            return NotImplemented
+
+        def pol(fr):
+            if fr.qualname == '_cached_projection':
+                def h(ex_, f_, a, kw):
+                    a = [exact(x) for x in a]
+                    return VList([z3.Real('P(%d,%d,%d)[%d]' % (a[0], a[1], a[2], j)) for j in range(a[0] + 1)], 'ndarray')
+                return h
+            return 'inline' if fr.qualname == 'Spectrum._project_one_axis' else 'abstract'
+        ex = Executor(policy=pol, getattr_hook=gh)
+        ex.abstract_hook = ah
+        fr = ex.func('dadi/Spectrum_mod.py', 'Spectrum._project_one_axis')
+        if n > N:
+            paths = ex.run(fr, [data, n], dict(axis=axis))
+            return [struct(oid + '.refused', len(paths) == 1 and paths[0].outcome == 'raise', 'projecting up raises', fn)]
+        paths = ex.run(fr, [data, n], dict(axis=axis))
+        if len(paths) != 1 or paths[0].outcome != 'return' or len(made) != 1:
+            return [struct(oid, False, 'expected one returning path constructing one Spectrum: %r' % paths[:2], fn, undecided=True)]
+        res = paths[0].value
+        pc = list(paths[0].pc)
+        new_shape = shape[:axis] + (n + 1,) + shape[axis + 1:]
+        got_shape = ex.list_method(res, 'shape') if isinstance(res, VList) else None
+        out = [struct(oid + '.shape', got_shape == new_shape, 'shape %s (got %s)' % (new_shape, got_shape), fn)]
+        if got_shape != new_shape:
+            return out
+        rmask = res.__dict__.get('attrs', {}).get('mask')
+        b = lambda x: z3.BoolVal(x) if isinstance(x, bool) else x
+        for j in itertools.product(*[range(s) for s in new_shape]):
+            want = z3.RealVal(0)
+            wm = []
+            for hits in range(N + 1):
+                least, most = max(n - (N - hits), 0), min(hits, n)
+                if least <= j[axis] <= most:
+                    src = j[:axis] + (hits,) + j[axis + 1:]
+                    want = want + z3.Real('P(%d,%d,%d)[%d]' % (n, N, hits, j[axis])) * f0[src]
+                    wm.append(m0[src])
+            out.append(prove_eq('%s.entry%s' % (oid, '_'.join(map(str, j))), pc, _nd_get(res, j), want, fn))
+            out.append(prove('%s.mask%s' % (oid, '_'.join(map(str, j))), pc, b(_nd_get(rmask, j)) == z3.Or(wm + [z3.BoolVal(False)]), fn))
+        return out
+    return go()
+
+
+# ---------------------------------------------------------------- C10: marginalize / filter_pops on small unmasked spectra
+def c10_marginalize(ns, over, via_filter=False):
+    """Spectrum.marginalize(over) on an unmasked, unfolded spectrum with sample sizes ns (every entry symbolic), `over` in the order given:
+    entry of the result = sum over the dropped populations' indices; remaining labels in their original order; folded False, extrap_x carried;
+    the total is conserved.  filter_pops(tokeep) (1-based, any order) is the same with the complementary axes."""
+    ns = tuple(ns)
+    over = tuple(over)
+    oid = 'C10/Spectrum_mod.py:Spectrum.%s/ns%s.%s%s' % ('filter_pops' if via_filter else 'marginalize', '_'.join(map(str, ns)), 'keep' if via_filter else 'over', '_'.join(map(str, over)))
+    fn = 'dadi/Spectrum_mod.py::Spectrum.' + ('filter_pops' if via_filter else 'marginalize')
+
+    @guarded(oid, fn)
+    def go():
+        shape = tuple(k + 1 for k in ns)
+        P = len(ns)
+        f0 = {i: z3.Real('f' + '_'.join(map(str, i))) for i in itertools.product(*[range(s) for s in shape])}
+        data = _nd_build(shape, lambda i: f0[i])
+        labels = ['P%d' % i for i in range(P)]
+        extrap = Tm('extrap_x')
+        log = []
+
+        def gh(ex_, obj, name, ctx):
+            if obj is data:
+                if name == 'folded':
+                    return False
+                if name == 'pop_ids':
+                    return VList(list(labels))
+                if name == 'extrap_x':
+                    return extrap
+                if name == 'ndim':
+                    return P
+                if name == 'marginalize':
+                    mfr = FuncRef(ex_.func('dadi/Spectrum_mod.py', 'Spectrum.marginalize').mod, ex_.func('dadi/Spectrum_mod.py', 'Spectrum.marginalize').node, 'Spectrum.marginalize')
+                    return PyFn(lambda ex2, *a, **k: ex2.call(mfr, [data] + list(a), k), 'self.marginalize', wants_ex=True)
+                if name == 'copy':
+                    def copy():
+                        def cp(v):
+                            return VList([cp(i) for i in v.items], 'ndarray') if isinstance(v, VList) else v
+                        c = cp(data)
+                        ex_.setattr(c, 'mask', _nd_build(shape, lambda i: False))
+                        return c
+                    return PyFn(copy, 'self.copy')
+            if isinstance(obj, VList) and obj.kind == 'ndarray':
+                if name == 'flat':
+                    leaves = []
+
+                    def walk(v):
+                        for i in v.items:
+                            walk(i) if isinstance(i, VList) else leaves.append(i)
+                    walk(obj)
+                    return VList(leaves)          # writes to .flat of an all-False mask copy change nothing that is read later
+                if name == 'mask_corners':
+                    return PyFn(lambda: log.append('mask_corners'), 'mask_corners')
+            return NotImplemented
+        ex = Executor(getattr_hook=gh, policy=lambda fr: 'inline' if fr.qualname in ('Spectrum.marginalize', 'Spectrum.filter_pops') else 'abstract')
+        fr = ex.func('dadi/Spectrum_mod.py', 'Spectrum.filter_pops' if via_filter else 'Spectrum.marginalize')
+        paths = ex.run(fr, [data, VList(list(over))], dict(mask_corners=False))
+        if len(paths) != 1:
+            return [struct(oid, False, 'expected one path: %r' % paths[:3], fn, undecided=True)]
+        if paths[0].outcome != 'return':
+            return [struct(oid + '.returns', False, 'raises on a valid request: %r' % paths[0], fn)]
+        res = paths[0].value
+        drop = sorted(set(range(P)) - {t - 1 for t in over}) if via_filter else sorted(over)
+        keep = [a for a in range(P) if a not in drop]
+        new_shape = tuple(shape[a] for a in keep)
+        got_shape = ex.list_method(res, 'shape') if isinstance(res, VList) else (() if is_scalar(exact(res)) else None)
+        out = [struct(oid + '.shape', got_shape == new_shape, 'shape %s (got %s)' % (new_shape, got_shape), fn)]
+        if got_shape != new_shape:
+            return out
+        at = res.__dict__.get('attrs', {}) if isinstance(res, VList) else {}
+        gl = at.get('pop_ids')
+        out.append(struct(oid + '.labels', isinstance(gl, VList) and list(gl.items) == [labels[a] for a in keep], 'labels %s (got %s)' % ([labels[a] for a in keep], vrepr(gl)), fn))
+        out.append(struct(oid + '.flags', at.get('folded') is False and at.get('extrap_x') is extrap, 'unfolded, extrap_x carried', fn))
+        tot = z3.RealVal(0)
+        for j in itertools.product(*[range(s) for s in new_shape]):
+            src = [i for i in f0 if tuple(i[a] for a in keep) == j]
+            out.append(prove_eq('%s.entry%s' % (oid, '_'.join(map(str, j))), list(paths[0].pc), _nd_get(res, j), sum((f0[i] for i in src), z3.RealVal(0)), fn))
+            tot = tot + to_real(exact(_nd_get(res, j)))
+        out.append(prove_eq(oid + '.total-conserved', list(paths[0].pc), tot, sum(f0.values(), z3.RealVal(0)), fn))
+        return out
+    return go()
